@@ -42,10 +42,27 @@ def _run_one(idx, item, fn, wfd: int, case_timeout: float) -> None:
         data = data[n:]
 
 
+def _kill_group(pgid: int) -> None:
+    try:
+        os.killpg(pgid, signal.SIGKILL)
+    except (ProcessLookupError, PermissionError):
+        pass
+
+
 def _child(batch, fn, wfd: int, case_timeout: float) -> None:
     """A batch child only supervises: every case runs in a process of its own, forked from this
     (pristine: imports only) process, so that no module-level state of the library survives from
-    one case into the next one."""
+    one case into the next one.  The case process leads a process group of its own; whatever it
+    leaves behind when it ends (helper processes of a changed library, a zygote) is killed with
+    that group, so that nothing keeps the result pipe open."""
+    current = [0]
+
+    def on_term(signum, frame):  # the parent gave up on this batch
+        if current[0]:
+            _kill_group(current[0])
+        os._exit(0)
+
+    signal.signal(signal.SIGTERM, on_term)
     try:
         for idx, item in batch:
             sys.stdout.flush()
@@ -53,12 +70,21 @@ def _child(batch, fn, wfd: int, case_timeout: float) -> None:
             pid = os.fork()
             if pid == 0:
                 try:
+                    signal.signal(signal.SIGTERM, signal.SIG_DFL)
+                    os.setpgid(0, 0)
                     _run_one(idx, item, fn, wfd, case_timeout)
                 finally:
                     sys.stdout.flush()
                     sys.stderr.flush()
                     os._exit(0)
+            try:
+                os.setpgid(pid, pid)
+            except OSError:
+                pass
+            current[0] = pid
             os.waitpid(pid, 0)
+            _kill_group(pid)
+            current[0] = 0
     finally:
         os._exit(0)
 
@@ -161,8 +187,13 @@ def run_parallel(
         for st in list(live.values()):
             if now - st["last"] > case_timeout + 30.0:
                 try:
-                    os.kill(st["pid"], signal.SIGKILL)
+                    # SIGTERM: the batch child kills the process group of its current case and exits
+                    os.kill(st["pid"], signal.SIGKILL if st.get("termed") else signal.SIGTERM)
                 except ProcessLookupError:
                     pass
-                st["last"] = now
+                if st.get("termed"):
+                    finish(st)  # do not wait for end-of-file: orphans may hold the pipe
+                    continue
+                st["termed"] = True
+                st["last"] = now - case_timeout  # SIGKILL follows 30 s later if needed
     return results
